@@ -358,7 +358,9 @@ def prim_sites(n: Names, p: tuple, *, shopify: bool = False) -> list[tuple]:
         (("for", i, V(n.arr), (("offset", p),), (("out", V(i)),), None),),
         (("case", p, (((I(1), p), (("text", "w"),)),), (("text", "e"),)),),
         (("case", V(g), (((p,), (("text", "w"),)),), None),),
-        (("cycle", None, (p, I(2))), ("cycle", None, (p, I(2)))),
+        # (two separate cycle tags whose items contain an interpolated template string do not share their position:
+        #  the engine keys cycles by expression identity there; the documentation does not define it - not generated)
+        *([] if p[0] == "tstr" else [(("cycle", None, (p, I(2))), ("cycle", None, (p, I(2))))]),
         (("with", ((a, p),), (("out", V(a)),)),),
         (("include", S(pn), p, b, False, ()),),
         (("include", S(pn), None, None, False, ((a, p),)),),
